@@ -309,6 +309,25 @@ def run_check(pid, tier, replay_path=None):
         print("infrastructure failure: proof audit failed for static theorems")
         return 2
 
+    # thorough tier: the toolchain's independent checker replays the property's compiled modules
+    if tier == "thorough" and not proof_broken and replay_path is None:
+        mods = ["Blackbird.Props." + f[:-5] for f in sorted(os.listdir(os.path.join(core.LEAN_DIR, "Blackbird", "Props")))
+                if re.fullmatch(pid + r"[A-Za-z]*\.lean", f)]
+        if getattr(mod, "USES_GENERATED", False):
+            mods += ["GenProps." + f[:-5] for f in sorted(os.listdir(os.path.join(core.LEAN_DIR, "GenProps")))
+                     if re.fullmatch(pid + r"[A-Za-z]*\.lean", f)]
+        try:
+            with Lock(os.path.join(core.WORK, "lean.lock")):
+                lc = subprocess.run(["lake", "env", "leanchecker"] + mods, cwd=core.LEAN_DIR, stdout=subprocess.PIPE,
+                                    stderr=subprocess.STDOUT, timeout=3000)
+            ctx.extra["leanchecker"] = {"modules": mods, "exit": lc.returncode}
+            if lc.returncode != 0:
+                print(lc.stdout.decode("utf-8", "replace")[-2000:])
+                print("infrastructure failure: leanchecker rejects the compiled proofs")
+                return 2
+        except FileNotFoundError:
+            ctx.extra["leanchecker"] = {"modules": mods, "exit": "not installed"}
+
     core.import_blackbird()
     import implcov
     pkg = os.path.join(core.REPO, "blackbird_python", "blackbird")
